@@ -44,6 +44,8 @@ type caseGen struct {
 	chCount  int
 	blocks   []*pvcase.Block
 	inputSrc string
+	// dupActs: the two actions of the dupErrShape (they get the same error message)
+	dupActs []*pvcase.Expr
 }
 
 type ectx struct {
